@@ -9,5 +9,7 @@ for f in sorted(glob.glob('evidence/*.json')):
     jsonschema.validate(json.load(open(f)),s)
     e=json.load(open(f)); c=e['coverage']
     print(f, 'ok', e['tier'], 'states',c.get('states'),'trans',c.get('transitions'),'exh',c.get('exhaustive'),'viol',e.get('violations'))
+    if e['tier']=='quick' and c.get('exhaustive') is not True:
+        print('WARNING:', f, 'quick tier did not complete its space (exhaustive is', c.get('exhaustive'), ')')
 print('valid')
 PY
